@@ -467,7 +467,10 @@ class MultiVector:
     def op(self, other):
         return self.algebra.op(self, other)
 
-    __xor__ = __rxor__ = op
+    __xor__ = op
+
+    def __rxor__(self, other):
+        return self.algebra.op(other, self)
 
     def lc(self, other):
         return self.algebra.lc(self, other)
